@@ -192,7 +192,9 @@ func genC04(t *rapid.T) c04Case {
 	cs := c04Case{AsDocs: rapid.IntRange(0, 2).Draw(t, "asdocs") == 0, HasFiles: files}
 	// the merge rules do not depend on the later stages a caller may switch off
 	if rapid.IntRange(0, 3).Draw(t, "optset") == 0 {
-		switch rapid.IntRange(0, 2).Draw(t, "optwhich") {
+		switch rapid.IntRange(0, 3).Draw(t, "optwhich") {
+		case 3:
+			cs.Opts.KnownExt = rapid.SampledFrom([]string{"value", "pointer"}).Draw(t, "known-extension")
 		case 0:
 			cs.Opts.SkipNormalization = true
 		case 1:
@@ -367,7 +369,7 @@ func c04Check(c *Ctx, cs c04Case) *Failure {
 	if cs.Tag != "" {
 		c.Label("tag:" + strings.SplitN(cs.Tag, ":", 2)[0])
 	}
-	if cs.Opts.SkipNormalization || cs.Opts.SkipConsistencyCheck || cs.Opts.NoResolvePaths {
+	if cs.Opts.SkipNormalization || cs.Opts.SkipConsistencyCheck || cs.Opts.NoResolvePaths || cs.Opts.KnownExt != "" {
 		c.Label("with-loader-options")
 	}
 	if cs.AsDocs {
